@@ -323,8 +323,8 @@ type LocalIdent struct {
 // NewLocalIdent returns a new local identifier based on the given string. An
 // unnamed local ID is used if ident is an integer, and a local name otherwise.
 func NewLocalIdent(ident string) LocalIdent {
-	if id, err := strconv.ParseInt(ident, 10, 64); err == nil {
-		return LocalIdent{LocalID: id}
+	if id, err := strconv.ParseUint(ident, 10, 63); err == nil {
+		return LocalIdent{LocalID: int64(id)}
 	}
 	return LocalIdent{LocalName: ident}
 }
